@@ -92,3 +92,69 @@ let run (id : string) (ops : string list) (out : out_channel) =
     | _ -> failwith ("lsctp op: " ^ op)) ops
 
 let registered = Registry.register "Lsctp" run
+
+(* ---- extraction cross-check inside Coq (see c18.ml): every model call this glue makes for the ops of a
+   sampled case (sdecode_into, sserialize, sctp_packet with the same variant flag LSCTP_MODEL), restated
+   as a Gallina term and recomputed by vm_compute, must give the value the extracted code computed here. *)
+let coq_sctp (s : sctp) =
+  Printf.sprintf "(Build_sctp %s %s %s %s %s %s %s %s)" (coq_z s.s_sp) (coq_z s.s_dp) (coq_z s.s_vtag) (coq_z s.s_sum)
+    (coq_zlist s.s_sport) (coq_zlist s.s_dport) (coq_zlist s.s_contents) (coq_zlist s.s_payload)
+let coq_chdr (c : chdr) =
+  Printf.sprintf "(Build_chdr %s %s %s %s %s %s)" (coq_z c.c_type) (coq_z c.c_flags) (coq_z c.c_len) (coq_z c.c_actual)
+    (coq_zlist c.c_contents) (coq_zlist c.c_payload)
+let coq_params ps = coq_list (fun (p : param) ->
+  Printf.sprintf "Build_param %s %s %s %s" (coq_z p.p_type) (coq_z p.p_len) (coq_z p.p_actual) (coq_zlist p.p_value)) ps
+let coq_chunk (ch : chunk) = match ch with
+  | CData (c, ube, tsn, sid, sseq, ppid, pl) ->
+    Printf.sprintf "CData %s %s %s %s %s %s %s" (coq_chdr c) (coq_z ube) (coq_z tsn) (coq_z sid) (coq_z sseq) (coq_z ppid) (coq_zlist pl)
+  | CInit (c, a, b, o, i, t, ps) ->
+    Printf.sprintf "CInit %s %s %s %s %s %s %s" (coq_chdr c) (coq_z a) (coq_z b) (coq_z o) (coq_z i) (coq_z t) (coq_params ps)
+  | CSack (c, cum, arw, ng, nd, gs, ds) ->
+    Printf.sprintf "CSack %s %s %s %s %s %s %s" (coq_chdr c) (coq_z cum) (coq_z arw) (coq_z ng) (coq_z nd) (coq_zlist gs) (coq_zlist ds)
+  | CHeartbeat (c, ps) -> Printf.sprintf "CHeartbeat %s %s" (coq_chdr c) (coq_params ps)
+  | CError (c, ps) -> Printf.sprintf "CError %s %s" (coq_chdr c) (coq_params ps)
+  | CShutdown (c, t) -> Printf.sprintf "CShutdown %s %s" (coq_chdr c) (coq_z t)
+  | CShutdownAck c -> "CShutdownAck " ^ coq_chdr c
+  | CCookieEcho (c, k) -> Printf.sprintf "CCookieEcho %s %s" (coq_chdr c) (coq_zlist k)
+  | CEmpty c -> "CEmpty " ^ coq_chdr c
+
+let to_coq (idx : int) (ops : string list) (out : out_channel) =
+  let n = ref 0 in
+  let name () = incr n; Printf.sprintf "sample_%d_%d" idx !n in
+  let small h = String.length h <= 300 in
+  let ex_dec (olds : string) (old : sctp) (d : BinNums.coq_Z list) =
+    let r = sdecode_into old d in
+    coq_example_named out (name ()) (Printf.sprintf "sdecode_into %s %s" olds (coq_zlist d)) (coq_pair coq_sctp (coq_outcome coq_unit) r); r in
+  let ex_ser (s : sctp) (pl : BinNums.coq_Z list) (cs : bool) (junk1 : bool) =
+    let r = sserialize g s pl cs (if junk1 then repeat_z (z_of_int 0xaa) 64 else []) in
+    coq_example_named out (name ())
+      (Printf.sprintf "sserialize %s %s %s %s %s" (coq_bool g) (coq_sctp s) (coq_zlist pl) (coq_bool cs) (if junk1 then "(repeat 170%Z 64%nat)" else "[]"))
+      (coq_outcome coq_zlist r); r in
+  Stdlib.List.iter (fun op ->
+    let (nm, arg) = match String.index_opt op ':' with
+      | Some i -> (String.sub op 0 i, String.sub op (i + 1) (String.length op - i - 1))
+      | None -> (op, "") in
+    let args = split_on ',' arg in
+    if !n < 6 then
+    match nm, args with
+    | "dec", [h] when small h -> ignore (ex_dec "sctp0" sctp0 (bytes_of_hex h))
+    | "dec2", [a; b] when small a && small b ->
+      let (s1, _) = ex_dec "sctp0" sctp0 (bytes_of_hex a) in ignore (ex_dec (coq_sctp s1) s1 (bytes_of_hex b))
+    | "ser", [h; fcd; pl] when small h && small pl ->
+      let (s, _) = sdecode_into sctp0 (bytes_of_hex h) in
+      ignore (ex_ser s (bytes_of_hex pl) (fcd.[1] = '1') (fcd.[2] = '1'))
+    | "rt", [h; pl] when small h && small pl ->
+      let (s, o) = ex_dec "sctp0" sctp0 (bytes_of_hex h) in
+      (match o with
+       | Base.Ok _ -> (match ex_ser s (bytes_of_hex pl) true false with
+           | Base.Ok bytes -> ignore (ex_dec "sctp0" sctp0 bytes)
+           | _ -> ())
+       | _ -> ())
+    | "pkt", (h :: rest) when small h ->
+      let extra = match rest with [e] -> bytes_of_hex e | _ -> [] in
+      let d = bytes_of_hex h in
+      let (((s, chunks), tr), o) = sctp_packet g d extra in
+      coq_example_named out (name ()) (Printf.sprintf "sctp_packet %s %s %s" (coq_bool g) (coq_zlist d) (coq_zlist extra))
+        (Printf.sprintf "(%s, %s, %s, %s)" (coq_sctp s) (coq_list coq_chunk chunks) (coq_bool tr) (coq_outcome coq_unit o))
+    | _ -> ()) ops
+let registered_coq = Registry.register_coq "Lsctp" ("From GP Require Import Base LsctpModel.\n", to_coq)
